@@ -382,9 +382,11 @@ func check(id, tier string) int {
 			maxWall = ws.WallS
 		}
 	}
-	if agg.Runs == 0 {
+	if pre, _ := filepath.Glob(filepath.Join(outDir, "fail-*.json")); agg.Runs == 0 && len(pre) == 0 {
 		fmt.Fprintln(os.Stderr, "wsimctl: no run was executed (exit 2)")
 		return 2
+	} else if agg.Runs == 0 {
+		agg.Runs = len(pre) // every worker died on its first cases
 	}
 
 	// 4. failures: minimise, re-validate in a fresh process, report
